@@ -14,8 +14,15 @@ inductive SkipSpec where
   | cc (v : Nat)
   | pusi
   | af
+  /-- looks INTO the adaptation field: PCR, random access indicator or stuffing present -/
+  | afContent
   | script (ds : List Bool)
   deriving Inhabited
+
+def afContentPred (p : Packet) : Bool :=
+  match p.adaptationField with
+  | some a => a.hasPCR || a.randomAccessIndicator || a.stuffingLength > 0
+  | none => false
 
 def SkipSpec.toJson : SkipSpec → String
   | .none => "null"
@@ -23,6 +30,7 @@ def SkipSpec.toJson : SkipSpec → String
   | .cc v => jobj [("kind", jstr "cc"), ("v", jnat v)]
   | .pusi => jobj [("kind", jstr "pusi")]
   | .af => jobj [("kind", jstr "af")]
+  | .afContent => jobj [("kind", jstr "afContent")]
   | .script ds => jobj [("kind", jstr "script"), ("ds", jarr (ds.map jbool))]
 
 def SkipSpec.toModel : SkipSpec → Skipper
@@ -31,6 +39,7 @@ def SkipSpec.toModel : SkipSpec → Skipper
   | .cc v => .pred fun p => p.header.continuityCounter == v
   | .pusi => .pred fun p => p.header.payloadUnitStartIndicator
   | .af => .pred fun p => p.header.hasAdaptationField
+  | .afContent => .pred afContentPred
   | .script ds => .script ds
 
 inductive Call where
@@ -39,10 +48,12 @@ inductive Call where
 
 inductive View where
   | seq | perpid | tablepos | outcomes
+  /-- what every call returned, without reader positions, up to and including the first end of stream -/
+  | items
   deriving DecidableEq, Inhabited
 
 def View.name : View → String
-  | .seq => "seq" | .perpid => "perpid" | .tablepos => "tablepos" | .outcomes => "outcomes"
+  | .seq => "seq" | .perpid => "perpid" | .tablepos => "tablepos" | .outcomes => "outcomes" | .items => "items"
 
 structure DemuxCfg where
   size : Nat := 188
@@ -82,6 +93,20 @@ def CallRes.show (k : ReaderKind) : CallRes → String
   | .packet r pos => r.showPub Packet.toJson ++ "@" ++ posStr k pos
   | .rewound n pos => s!"rewind:{n}@" ++ posStr k pos
   | .poisoned => "poison"
+
+def CallRes.item : CallRes → String
+  | .data r _ => r.showPub DemuxerData.toJson
+  | .packet r _ => r.showPub Packet.toJson
+  | .rewound n _ => s!"rewind:{n}"
+  | .poisoned => "poison"
+
+def CallRes.isEOF : CallRes → Bool
+  | .data (.err .eof) _ => true | .packet (.err .eof) _ => true | _ => false
+
+/-- results up to and including the first end of stream -/
+def untilEOF : List CallRes → List CallRes
+  | [] => []
+  | r :: rs => if r.isEOF then [r] else r :: untilEOF rs
 
 def CallRes.outcome : CallRes → String
   | .data (.ok _) _ => "ok" | .packet (.ok _) _ => "ok"
@@ -135,6 +160,7 @@ def observe (c : DemuxCfg) (rs : List CallRes) (final : Demux) : String :=
   | .seq => "|".intercalate (rs.map (·.show c.kind)) ++ ";skip=" ++ skipLogStr final.skipLog
               ++ ";parser=" ++ parserLogStr final.parserLog ++ ";stable=true"
   | .outcomes => ",".intercalate (rs.map (·.outcome))
+  | .items => "|".intercalate ((untilEOF rs).map (·.item))
   | .tablepos => jarr (rs.filterMap fun r => match r with
       | .data (.ok d) pos => if isTable d then some (jstr s!"{d.pid}:{pos}") else none
       | _ => none)
